@@ -39,6 +39,8 @@ if section == "cases":
     V = EV.evaluate(case, res["cases"][0])
 elif section == "batches":
     V = EV.evaluate_batch(case, res["batch"][0])
+elif section == "memo_cases":
+    V = EV.evaluate_memo(case, res["memo"][0])
 else:
     V = EV.evaluate_sim(case, res["sim"][0])
 hit = [v for v in V if v[0] == kind]
@@ -69,7 +71,7 @@ def run_harness(ctx, req, timeout=1500):
     import concurrent.futures as cf
     parts = []
     cs = req.get("cases", [])
-    nproc = 4 if ctx.tier == "quick" else 8
+    nproc = int(os.environ.get("C19_NPROC", "4" if ctx.tier == "quick" else "8"))
     for ch in chunks(cs, nproc) if cs else []:
         parts.append({"cases": ch})
     rest = {k: v for k, v in req.items() if k not in ("cases", "batches") and v}
@@ -78,7 +80,7 @@ def run_harness(ctx, req, timeout=1500):
     if req.get("batches"):
         for ch in chunks(req["batches"], 2):
             parts.append({"batches": ch})
-    out = {"cases": [], "spectral": [], "sim": [], "batch": []}
+    out = {"cases": [], "spectral": [], "sim": [], "batch": [], "memo": []}
     errs = []
 
     def one(part):
@@ -113,14 +115,22 @@ def static_part(ctx):
         ctx.obligation("translate", False, str(ex))
         ctx.violation("translate", "translator rejected the source: %s" % ex, {"construct": str(ex)}, found_input=False)
         return None, False
-    ctx.obligation("translate", True, "_Phi, Solve (with/without rate law), VonMises/Hill P, state writers")
+    ctx.obligation("translate", True, "_Phi, Solve (with/without rate law), plane-stress loop, VonMises/Hill P, state writers")
     open(os.path.join(ctx.build, "Gen_C19.v"), "w").write(gen)
     ctx.sample({"generated": [l for l in gen.splitlines() if l.startswith("Definition gen_theta_next_norate")][0][:400]})
     # --- who writes the committed state (ties C19_Commit.v's `exec` to the class) ---
     W = Tr["writers"]["sim"]
-    okw = (W == EXPECTED_SIM_WRITERS)
+    inits = Tr["writers"]["initialisers"]
+    # a method whose only stores are `self.__z = {}` and `self.__zOld = {}` is an initialiser (the
+    # model's ResetMesh / fresh): any number of them, under any name; everything else by role
+    W_core = {m: w for m, w in W.items() if m == "__init__" or m not in inits}
+    okw = (W_core == EXPECTED_SIM_WRITERS) and "__init__" in inits
     ctx.obligation("struct:committed-state-writers", okw,
-                   "methods of Simulations.InElastic storing into __z/__zOld: %s" % json.dumps(W))
+                   "methods of Simulations.InElastic storing into __z/__zOld: %s; initialisers (both dicts emptied): %s" % (json.dumps(W), inits))
+    ctx.cov["state_initialisers"] = inits
+    ctx.cov["accepted_memo_properties"] = Tr["writers"]["memos"]
+    for m, info in Tr["writers"]["memos"].items():
+        ctx.obligation("struct:memo:" + m, True, "Behavior.%s writes only %s = (key, value), key = `%s` compared (np.array_equal) with its current value before reuse; attribute touched nowhere else" % (m, info["attr"], info["key"]))
     bad_args = [b for b in Tr["arg_stores"] if not any((" " + w) in b and b.rstrip().endswith(w) for w in WORK_ARRAYS)]
     ctx.obligation("struct:integrate-stores-into-no-argument", not bad_args, "; ".join(bad_args) or "no Behavior method stores into an argument it did not copy (work arrays of __Flow excepted)")
     selfw = {m: w for m, w in Tr["writers"]["behavior"].items() if any(x.startswith("self.") for x in w)}
@@ -237,7 +247,8 @@ def run(ctx):
     spec = G.make_spectral(rng, 6 if quick else 24)
     sims = G.make_sims(rng, 2 if quick else 6)
     batches = G.make_batches(rng, 24 if quick else 96)
-    out, errs = run_harness(ctx, {"cases": cases, "spectral": spec, "sim_cases": sims, "batches": batches})
+    memos = G.make_memo_cases(rng, 8 if quick else 24)
+    out, errs = run_harness(ctx, {"cases": cases, "spectral": spec, "sim_cases": sims, "batches": batches, "memo_cases": memos})
     if errs:
         ctx.obligation("corr:harness", False, errs[0])
         ctx.violation("corr:harness-crash", "the implementation-side harness failed: " + errs[0].strip().splitlines()[-1][:200], {"stderr": errs[0]}, found_input=False)
@@ -304,6 +315,21 @@ def run(ctx):
                 short = dict(c)
                 short["fields"] = c["fields"][:k + 1] if k >= 0 else c["fields"]
                 found[key] = ("%s in batched field %s: %s" % (kind, c["id"], detail), replay_for(short, kind, "batches"))
+    # a memoised decomposition must follow a change of the elastic parameters
+    mres = {r["id"]: r for r in out["memo"]}
+    nmemo = 0
+    for c in memos:
+        r = mres.get(c["id"])
+        if r is None:
+            continue
+        nmemo += 1
+        ctx.note_case(c["id"] if r.get("nontrivial") else None)
+        for kind, k, detail in EV.evaluate_memo(c, r):
+            key = "%s:%s" % (kind, "spectral" if r.get("reducible") else "newton")
+            if key not in found:
+                found[key] = ("%s in %s: %s" % (kind, c["id"], detail), replay_for(c, kind, "memo_cases"))
+    bad = [k for k in found if k.split(":")[0] == "stale-after-parameter-change"]
+    ctx.obligation("corr:stale-after-parameter-change", not bad, "; ".join(found[b][0][:200] for b in bad[:3]) or "held bitwise on %d behaviors whose (E, v) were changed between calls" % nmemo)
     ctx.cov["batched_points"] = nbp
     ctx.cov["batched_field_distribution"] = bdist
     for pred in ["batch-differs-from-pointwise", "not-odd-without-internal-variables"]:
@@ -360,7 +386,7 @@ def run(ctx):
             ctx.violation(key, "%s at op %d of %s: %s" % (kind, k, c["id"], detail), replay_for(short, kind, "sim_cases"), found_input=True)
             found[key] = (detail, None)
     ctx.cov["simulation_events"] = nev
-    for pred in ["committed-state-changed-without-save", "save-does-not-commit-trial", "set-iter-does-not-restore", "set-iter-leaves-stale-trial", "saved-history-mutated", "saved-history-differs", "sim-error"]:
+    for pred in ["mesh-replacement-keeps-history", "committed-state-changed-without-save", "save-does-not-commit-trial", "set-iter-does-not-restore", "set-iter-leaves-stale-trial", "saved-history-mutated", "saved-history-differs", "sim-error"]:
         bad = [k for k in found if k.split(":")[0] == pred]
         ctx.obligation("corr:sim:" + pred, not bad, "; ".join(bad[:3]) or "held on %d simulation events (bitwise)" % nev)
 
@@ -395,7 +421,7 @@ def run(ctx):
             ctx.violation("proof-broken:" + str(res.failed_file), what + ("; concrete failing inputs were found: " + ", ".join(concrete[:3]) if concrete else "; the correspondence sweep found no failing input"),
                           {"obligation": res.failed_file, "log": res.log[-3000:], "related_violations": concrete[:10]}, found_input=False)
         if not okw:
-            ctx.violation("struct:committed-state-writers", "the set of methods writing __z/__zOld changed: %s (expected %s)" % (json.dumps(Tr["writers"]["sim"]), json.dumps(EXPECTED_SIM_WRITERS)),
+            ctx.violation("struct:committed-state-writers", "the set of methods writing __z/__zOld changed: %s (expected %s plus methods that only empty both dicts; recognised initialisers: %s)" % (json.dumps(Tr["writers"]["sim"]), json.dumps(EXPECTED_SIM_WRITERS), Tr["writers"]["initialisers"]),
                           {"writers": Tr["writers"]["sim"], "related_violations": concrete[:10]}, found_input=False)
         if bad_args or selfw:
             ctx.violation("struct:integrate-side-effect", "Behavior stores into an argument or attribute: %s %s" % (bad_args, selfw), {"related_violations": concrete[:10]}, found_input=False)
